@@ -1,6 +1,7 @@
-"""Take the seeded changes delivered under /tmp/seeds/cNN (patchA/B.diff, demoA/B.py, metaA/B.json), confirm them
-(patch applies, tests pass, demo fails with / passes without), run the registered check(s), and keep them under
-/verif/seeded/<id>/ with result.json.   usage: seed_intake.py C08 [C02 ...] [--props C03,C04] [--notests]"""
+"""Take a sub-agent's delivery (/tmp/seedwork/<pid>/<a|b>) into seeded/<pid><c|d|...>, confirm it
+(patch applies to a scratch copy, test-suite, demo patched/clean) and run the registered check.
+
+usage: harness/seed_intake.py <delivery dir> <new seed id> [--props C03,C04]"""
 import json
 import os
 import shutil
@@ -11,46 +12,29 @@ VERIF = os.path.dirname(os.path.dirname(os.path.abspath(__file__)))
 
 
 def main():
-    args = [a for a in sys.argv[1:] if not a.startswith("--")]
-    props = None
-    notests = "--notests" in sys.argv
-    srcroot, suffix = "/tmp/seeds", "ab"
-    for a in sys.argv[1:]:
-        if a.startswith("--props="):
-            props = a.split("=", 1)[1]
-        if a.startswith("--src="):
-            srcroot = a.split("=", 1)[1]
-        if a.startswith("--suffix="):
-            suffix = a.split("=", 1)[1]
-    for pid in args:
-        src = "%s/c%s" % (srcroot, pid[1:])
-        for v, sfx in zip("AB", suffix):
-            if not os.path.exists(os.path.join(src, "patch%s.diff" % v)):
-                print(pid, v, "missing")
-                continue
-            dst = os.path.join(VERIF, "seeded", "%s%s" % (pid, sfx))
-            os.makedirs(dst, exist_ok=True)
-            shutil.copy(os.path.join(src, "patch%s.diff" % v), os.path.join(dst, "patch.diff"))
-            shutil.copy(os.path.join(src, "demo%s.py" % v), os.path.join(dst, "demo.py"))
-            meta = json.load(open(os.path.join(src, "meta%s.json" % v)))
-            meta["property"] = pid
-            json.dump(meta, open(os.path.join(dst, "meta.json"), "w"), indent=1)
-            cmd = [os.path.join(VERIF, "harness", "seedtest.py"), dst]
-            if not notests:
-                cmd.append("--tests")
-            if props:
-                cmd.append("--props=" + props)
-            r = subprocess.run(["/venv/bin/python"] + cmd, capture_output=True, text=True)
-            try:
-                res = json.loads(r.stdout)
-            except Exception:
-                res = {"error": r.stdout[-500:] + r.stderr[-500:]}
-            json.dump(res, open(os.path.join(dst, "result.json"), "w"), indent=1)
-            runs = res.get("runs", [])
-            verdict = ["%s:exit%s%s" % (x["check"], x["exit"], "(nfi)" if any("no-failing-input-found" in l for l in x["lines"]) else "") for x in runs]
-            print(pid + sfx, "tests=", res.get("tests"), "demo(patched/clean)=", res.get("demo_patched_exit"), res.get("demo_clean_exit"),
-                  " ".join(verdict), res.get("error", ""))
+    src, sid = sys.argv[1], sys.argv[2]
+    extra = sys.argv[3:]
+    dst = os.path.join(VERIF, "seeded", sid)
+    os.makedirs(dst, exist_ok=True)
+    for fn in ("patch.diff", "demo.py", "meta.json"):
+        shutil.copy(os.path.join(src, fn), os.path.join(dst, fn))
+    meta = json.load(open(os.path.join(dst, "meta.json")))
+    meta["round"] = 2
+    json.dump(meta, open(os.path.join(dst, "meta.json"), "w"), indent=1)
+    env = dict(os.environ, PATH="/venv/bin:" + os.environ["PATH"])
+    r = subprocess.run([sys.executable, os.path.join(VERIF, "harness", "seedtest.py"), dst, "--tests"] + extra,
+                       capture_output=True, text=True, env=env)
+    open(os.path.join(dst, "result.json"), "w").write(r.stdout)
+    try:
+        res = json.loads(r.stdout)
+    except Exception:
+        print(sid, "seedtest failed:", r.stdout[-300:], r.stderr[-300:])
+        return 2
+    print(sid, "tests:", res.get("tests"), "| demo patched/clean:", res.get("demo_patched_exit"), res.get("demo_clean_exit"))
+    for run in res.get("runs", []):
+        print("   ", run["check"], "exit", run["exit"], "%.0fs" % run["wall"], (run["lines"] or [""])[0][:80], "|", (run["lines"][1:2] or [""])[0][:200], run.get("stderr", "")[-200:])
+    return 0
 
 
 if __name__ == "__main__":
-    main()
+    sys.exit(main())
